@@ -275,6 +275,21 @@ func blocksOf(op string, simple []byte, sizes []int) []string {
 	return blocks
 }
 
+// massiveHangs counts massive calls that did not return; after a few the suite stops (every further
+// case would wait out its deadline, and what hung still holds its goroutines)
+var massiveHangs int
+
+func runOpDeadline(op string, doc []byte, f Fmt4, exts []string) (opResult, bool) {
+	ch := make(chan opResult, 1)
+	go func() { ch <- runOp(op, doc, true, context.Background(), f, exts) }()
+	select {
+	case r := <-ch:
+		return r, true
+	case <-time.After(20 * time.Second):
+		return opResult{}, false
+	}
+}
+
 func runMassive(m *Model, c massiveCase) []Diff {
 	massiveMu.Lock()
 	defer massiveMu.Unlock()
@@ -298,9 +313,15 @@ func runMassive(m *Model, c massiveCase) []Diff {
 	c.Blocks = sizes
 	before := runtime.NumGoroutine()
 	done := installSched(c.Sched)
-	massive := runOp(c.Op, doc, true, context.Background(), c.Fmt, c.Exts)
+	massive, returned := runOpDeadline(c.Op, doc, c.Fmt, c.Exts)
 	reached := done()
 	_ = reached
+	if !returned {
+		massiveHangs++
+		buf := make([]byte, 1<<17)
+		n := runtime.Stack(buf, true)
+		return []Diff{{What: "massive mode did not return within 20 s where simple mode returned " + classify(simple.err), Real: string(buf[:n]), Model: "simple: " + classify(simple.err)}}
+	}
 	var d []Diff
 	if (simple.err == nil) != (massive.err == nil) {
 		d = append(d, Diff{What: "massive mode returns an error iff simple mode does", Real: "massive: " + classify(massive.err), Model: "simple: " + classify(simple.err)})
@@ -456,7 +477,7 @@ func runC10(ctx *Ctx) *Report {
 				continue
 			}
 			k++
-			c := massiveCase{Kind: "massive", Op: op, Doc: hx(doc), Text: docText(doc), Blocks: forestSizes(f), Sched: int64(ctx.Seed*1000 + int64(k)), Fmt: allFormats()[k%len(allFormats())], Exts: extLists[k%len(extLists)]}
+			c := massiveCase{Kind: "massive", Op: op, Doc: hx(doc), Text: docText(doc), Blocks: forestSizes(f), Sched: int64(ctx.Seed*1000 + int64(k)), Fmt: lineFormats()[k%len(lineFormats())], Exts: extLists[k%len(extLists)]}
 			if k%5 == 0 {
 				c.Procs = []int{1, 2, 4}[k%3]
 			}
@@ -623,6 +644,10 @@ func runC10(ctx *Ctx) *Report {
 		}
 	}
 	for _, c := range cases {
+		if massiveHangs >= 2 {
+			rep.Notes = append(rep.Notes, "stopped early: massive-mode calls hang")
+			break
+		}
 		if rep.Full() {
 			rep.Notes = append(rep.Notes, "stopped early: 10 violations collected")
 			break
@@ -932,6 +957,10 @@ func runC11(ctx *Ctx) *Report {
 	}
 	cases = append(cases, faultCase{Kind: "massive-fault", Op: "rwalk", Doc: "-", Sched: 5, Fault: "callback", At: 0})
 	for _, c := range cases {
+		if massiveHangs >= 2 {
+			rep.Notes = append(rep.Notes, "stopped early: massive-mode calls hang")
+			break
+		}
 		if rep.Full() {
 			rep.Notes = append(rep.Notes, "stopped early: 10 violations collected")
 			break
